@@ -23,6 +23,8 @@ structure Tree where
   F : Facts
   names : Array String
   ext : Array String
+  /-- the certainly-unbound reads of locals of the tree -/
+  dead : List DeadLoad := []
 
 /-- the outcome of an entry's import: the state, or the lena error, or the absent third-party
 module whose `ImportError` escaped -/
@@ -44,7 +46,7 @@ def importedOf (G : Facts) (e : Nat) : Imported × List State :=
   | .ok (_, some x) => (.ext x, [])
   | .error err => (.err err, [])
 
-def repo : Tree := ⟨Gen.current, Gen.names, Gen.ext⟩
+def repo : Tree := ⟨Gen.current, Gen.names, Gen.ext, Gen.currentDeadLoads⟩
 
 /-- per environment and entry of the repository tree: the outcome of the import and the states
 reachable by calls (computed once) -/
@@ -114,6 +116,10 @@ def unbound? (j : Json) : Option UnboundFact := do
   return ⟨← nat? (getD j "mod_id"), ← nat? (getD j "fn_id"), ← nat? (getD j "var_id"),
     (bool? (getD j "audited")).getD false⟩
 
+def dead? (j : Json) : Option DeadLoad := do
+  return ⟨← nat? (getD j "mod_id"), ← nat? (getD j "fn_id"), ← nat? (getD j "var_id"), ← nat? (getD j "line"),
+    ← nat? (getD j "cause")⟩
+
 def tree? (j : Json) : Option Tree := do
   let fj := getD j "facts"
   let mods ← (← arr? (getD fj "modules")).toList.mapM module?
@@ -124,7 +130,8 @@ def tree? (j : Json) : Option Tree := do
     ← (← arr? (getD fj "raises")).toList.mapM raise?, ← (← arr? (getD fj "maybe_unbound")).toList.mapM unbound?⟩
   let names ← (← arr? (getD fj "names")).toList.mapM str?
   let ext ← (← arr? (getD fj "ext")).toList.mapM str?
-  return ⟨F, names.toArray, ext.toArray⟩
+  let dead := ((arr? (getD fj "dead_loads")).bind (fun a => a.toList.mapM dead?)).getD []
+  return ⟨F, names.toArray, ext.toArray, dead⟩
 
 /-! ### answers -/
 
@@ -180,7 +187,7 @@ def handle (j : Json) : Json :=
       ("entries", ofList (fun e => Json.str (modStr T e)) F.entries), ("layout", F.layoutOk),
       ("ext", ofList Json.str T.ext.toList), ("envs", ofList ofNat F.envs),
       ("resolvesAllEnvs", resolvesAllEnvs F), ("closuresOk", closuresOk F),
-      ("exceptionsOk", exceptionsOk F), ("localsOk", localsOk F),
+      ("exceptionsOk", exceptionsOk F), ("localsOk", localsOk F), ("deadLoadsOk", deadLoadsOk T.dead),
       ("orderIndependent", ofList (fun env => Json.bool (orderIndependent (F.withEnv env))) F.envs),
       ("handlers", ofNat ((F.mods.flatMap (·.funcs)).filter hasHandler).length),
       ("lenaExceptions", Json.mkObj ((zipIdx F.classes 0).filterMap (fun (i, C) =>
@@ -229,7 +236,10 @@ def handle (j : Json) : Json :=
             ("badRaises", ofList (fun (r : RaiseFact) => ofNat r.line)
               (F.raises.filter (fun r => r.mod == m && nameStr T r.fn == q && !raiseOkB F r))),
             ("unaudited", ofList (fun (u : UnboundFact) => Json.str (nameStr T u.var))
-              (F.maybeUnbound.filter (fun u => u.mod == m && nameStr T u.fn == q && !u.audited)))]
+              (F.maybeUnbound.filter (fun u => u.mod == m && nameStr T u.fn == q && !u.audited))),
+            -- reads of locals that are certainly unbound (`deadLoadsOf`, by the function's display name)
+            ("dead", ofList (fun (d : DeadLoad) => Json.arr #[Json.str (nameStr T d.var), ofNat d.line])
+              (T.dead.filter (fun d => d.mod == m && nameStr T d.fn == q)))]
         | some f =>
           Json.mkObj [("r", ofList (fun s =>
             match s.statusOf m with
@@ -254,7 +264,10 @@ def handle (j : Json) : Json :=
             ("badRaises", ofList (fun (r : RaiseFact) => ofNat r.line)
               (F.raises.filter (fun r => r.mod == m && nameStr T r.fn == q && !raiseOkB F r))),
             ("unaudited", ofList (fun (u : UnboundFact) => Json.str (nameStr T u.var))
-              (F.maybeUnbound.filter (fun u => u.mod == m && nameStr T u.fn == q && !u.audited)))]
+              (F.maybeUnbound.filter (fun u => u.mod == m && nameStr T u.fn == q && !u.audited))),
+            -- reads of locals that are certainly unbound (`deadLoadsOf`, by the function's display name)
+            ("dead", ofList (fun (d : DeadLoad) => Json.arr #[Json.str (nameStr T d.var), ofNat d.line])
+              (T.dead.filter (fun d => d.mod == m && nameStr T d.fn == q)))]
       | _, _, _ => err "bad call args"
   | some "findings" =>
     let T := (tree? (getD j "tree")).getD repo
